@@ -13,6 +13,12 @@ fn main() {
     let args: Vec<String> = std::env::args().collect();
     std::panic::set_hook(Box::new(|_| {}));
     util::install_error_channel();
+    if args.len() > 2 && args[1] == "--segment" {
+        // child of a crash case: it dies at the armed kill point
+        flw::run_segment(&args[2..]);
+        util::cleanup_scratch();
+        return;
+    }
     let mut real_out = util::redirect_std();
     let reader: Box<dyn BufRead> = if args.len() > 1 {
         Box::new(std::io::BufReader::new(std::fs::File::open(&args[1]).unwrap()))
